@@ -102,7 +102,7 @@ def toParam (j : Json) : Param :=
     | _ => (loc == .query || loc == .cookie)       -- style form explodes by default, style simple does not
   { name := getStr j "name", loc := loc, ty := ty,
     dflt := match j.getObjVal? "dflt" with | .ok .null => none | .ok d => some (toPVal d) | .error _ => none,
-    required := getBool j "required", allowEmpty := getBool j "allowEmpty", explode := explode }
+    required := getBool j "required" || loc == .path, allowEmpty := getBool j "allowEmpty", explode := explode }
 
 open Params in
 def toStore (js : List Json) : Store :=
